@@ -128,12 +128,22 @@ def make_source(spec):
         if c == "Geometry":
             return darsia.Geometry(space_dim=2, num_voxels=tuple(spec["shape"]), dimensions=[1.0, 2.0])
         if c == "EMD":
+            pre = spec.get("preprocess")
+            if pre == "identity-model":
+                return darsia.EMD(preprocess=darsia.ScalingModel(scaling=1.0))  # returns its input unchanged
+            if pre == "conditional":
+                big = darsia.Resize(shape=(4, 4), interpolation="inter_area")
+                return darsia.EMD(preprocess=lambda im: big(im) if im.num_voxels[0] > 16 else im)
+            if pre == "resize":
+                return darsia.EMD(preprocess=darsia.Resize(shape=tuple(spec["shape"]), interpolation="inter_area"))
             return darsia.EMD()
         if c == "HeterogeneousLinearModel":
             g = np.random.default_rng(81_500 + spec["id"])
             lab = g.integers(0, 3, size=tuple(spec["shape"])).astype(np.uint8)
             lab.ravel()[:3] = [0, 1, 2]  # all three labels present
             return darsia.HeterogeneousLinearModel(lab, scaling=[1.5, 0.5, 2.0], offset=[0.0, 0.1, 0.2])
+        if c == "ScalingModel":
+            return darsia.ScalingModel(scaling=1.0)
         if c == "ClipModel":
             return darsia.ClipModel(**{"min value": 0.1, "max value": 0.9})
         raise HarnessError(c)
@@ -331,6 +341,8 @@ def _w1(pool, op):
         kw = {}
         if op["method"] != "cv2.emd":
             kw["options"] = pool[op["options"]]
+        elif op.get("preprocess"):
+            kw["preprocess"] = pool[op["preprocess"]]
         if op.get("weight"):
             kw["weight"] = pool[op["weight"]]
         try:
@@ -405,7 +417,7 @@ REGISTRY = {
     "ones_like": (lambda p, o: darsia.ones_like(p[o["a"]], mode=o["mode"], dtype=NP_DT.get(o.get("t"))), ("a",)),
     "model": (_model, ("a", "labels", "mask")),
     "geometry": (_geometry, ("a", "ref", "nv", "dims", "weight")),
-    "distance": (_w1, ("a", "b", "options", "weight")),
+    "distance": (_w1, ("a", "b", "options", "weight", "preprocess")),
     "bounding_box": (lambda p, o: darsia.bounding_box(darsia.make_voxel(p[o["pts"]]), padding=o.get("pad", 0), max_size=p[o["max"]] if o.get("max") else None), ("pts", "max")),
     "bounding_box_inverse": (lambda p, o: darsia.bounding_box_inverse(p[o["box"]]), ("box",)),
     "random_patches": (lambda p, o: darsia.random_patches(p[o["mask"]], o["w"], o["n"]), ("mask",)),
@@ -462,7 +474,7 @@ class C17Engine(Engine):
         if cls == "OpticalImage":
             spec = {"kind": "image", "cls": cls, "shape": force.get("shape") or [r.randint(3, 6), r.randint(3, 6)],
                     "chan": 3, "dtype": r.choice(["uint8", "float32", "float64", "uint8"]),
-                    "color_space": r.choice(["RGB", "BGR"])}
+                    "color_space": r.choice(["RGB", "RGB", "BGR", "HSV"])}
         else:
             d = force.get("dim") or r.choice([1, 2, 2, 2, 3])
             spec = {"kind": "image", "cls": cls, "shape": force.get("shape") or [r.randint(2, 5) for _ in range(d)],
@@ -536,9 +548,11 @@ class C17Engine(Engine):
         sources["o_reduce"] = {"kind": "object", "cls": "AxisReduction", "axis": cfg.choice(["x", "y", "z", 0, 2]),
                                "mode": cfg.choice(["average", "sum"])}
         sources["o_geom"] = {"kind": "object", "cls": "Geometry", "shape": base_shape}
-        sources["o_emd"] = {"kind": "object", "cls": "EMD"}
+        sources["o_emd"] = {"kind": "object", "cls": "EMD", "shape": base_shape,
+                            "preprocess": cfg.choice([None, "identity-model", "conditional", "resize"])}
         sources["o_het"] = {"kind": "object", "cls": "HeterogeneousLinearModel", "shape": base_shape, "id": r.randint(0, 99)}
         sources["o_clip"] = {"kind": "object", "cls": "ClipModel"}
+        sources["o_clipid"] = {"kind": "object", "cls": "ScalingModel"}  # a preprocess routine that hands its input back
         sources["pts"] = {"kind": "list", "vals": [[1, 2], [3, 1], [2, 4]]}
         sources["max_size"] = {"kind": "list", "vals": [6, 6]}
         sources["box"] = {"kind": "tuple", "vals": []}  # replaced at build time by a tuple of slices
@@ -618,7 +632,7 @@ class C17Engine(Engine):
             w = r.choice(["tri", "mono", "grid"])
             if w == "tri":
                 desc[out] = dict(desc[a])
-                return {"op": "to_trichromatic", "a": a, "cs": r.choice(["RGB", "BGR", "HSV", "LAB"]), "out": out}
+                return {"op": "to_trichromatic", "a": a, "cs": r.choice(["RGB", "BGR", "HSV", "LAB", "HLS"]), "out": out}
             if w == "mono":
                 desc[out] = {**desc[a], "cls": "ScalarImage", "chan": 0}
                 return {"op": "to_monochromatic", "a": a, "key": r.choice(["gray", "red", "green", "blue", "value"]), "out": out}
@@ -769,6 +783,8 @@ class C17Engine(Engine):
                 a, b = r.sample(cands, 2)
             m = r.choice(["newton", "bregman", "cv2.emd", "emd-class"])
             op = {"op": "distance", "a": a, "b": b, "method": m, "out": None}
+            if m == "cv2.emd" and r.random() < 0.5:
+                op["preprocess"] = "o_clipid"
             if m in ("newton", "bregman"):
                 op["options"] = "w1opts"
                 if r.random() < 0.3:
